@@ -824,9 +824,15 @@ class Interp:
         return PList(self.ev_Tuple(node, env))
 
     def ev_Dict(self, node, env):
-        if node.keys:
-            raise Unsupported("non-empty dict literal")
-        return {}
+        out = {}
+        for k, v in zip(node.keys, node.values):
+            if k is None:
+                raise Unsupported("** in a dict literal")
+            kv = self.eval(k, env)
+            if not isinstance(kv, (str, int)) or isinstance(kv, bool):
+                raise Unsupported("dict literal with a non-constant key")
+            out[kv] = self.eval(v, env)
+        return out
 
     def ev_Slice(self, node, env):
         g = lambda n: None if n is None else self.eval(n, env)
@@ -1011,6 +1017,13 @@ class Interp:
             return self.equal(a, b)
         if t is ast.NotEq:
             return S.Not(self.equal(a, b))
+        if isinstance(a, PObj) or isinstance(b, PObj):
+            nm = {ast.Lt: ('__lt__', '__gt__'), ast.LtE: ('__le__', '__ge__'), ast.Gt: ('__gt__', '__lt__'), ast.GtE: ('__ge__', '__le__')}.get(t)
+            if nm and isinstance(a, PObj) and nm[0] in a.methods:
+                return self.call(a.methods[nm[0]], [a, b], {})
+            if nm and isinstance(b, PObj) and nm[1] in b.methods:
+                return self.call(b.methods[nm[1]], [b, a], {})
+            raise Unsupported("ordering comparison on object")
         if isinstance(a, (PList, tuple)) and isinstance(b, (PList, tuple)) and type(a) is type(b):
             xa = a.items if isinstance(a, PList) else list(a)
             xb = b.items if isinstance(b, PList) else list(b)
